@@ -216,7 +216,8 @@ func (p *Prog) FsArg(o *renderOpts, rendered map[string]string) string {
 // regex text for confirmation of a reported difference on Go's own engine
 type D struct {
 	rx, txt string
-	none    bool // a stored name that held nothing: appending it adds nothing
+	none    bool   // a stored name that held nothing: appending it adds nothing
+	raw     string // the text as the code would copy it raw (entries: ungrouped); "" = txt
 }
 
 func catD(a, b D) D { return D{rx: catRX(a.rx, b.rx), txt: a.txt + b.txt} }
@@ -239,13 +240,14 @@ func catAllD(xs []D) D {
 }
 
 type denCtx struct {
-	p     *Prog
-	fold  bool
-	dotNL bool
-	defs  map[string]string // definitions visible to the text being read
-	stash map[string]D
-	err   error
-	depth int
+	rawSingle bool // the code's behaviour instead of the plain reading: a segment of ONE pending line is copied raw (txt only)
+	p         *Prog
+	fold      bool
+	dotNL     bool
+	defs      map[string]string // definitions visible to the text being read
+	stash     map[string]D
+	err       error
+	depth     int
 }
 
 func (c *denCtx) fail(e error) {
@@ -298,7 +300,7 @@ func (c *denCtx) entryD(text string) D {
 		c.fail(fmt.Errorf("entry %q: %w", text, err))
 		return D{rx: "v", txt: "[^\\x00-\\x{10FFFF}]"}
 	}
-	return D{rx: rx, txt: "(?:" + t + ")"}
+	return D{rx: rx, txt: "(?:" + t + ")", raw: t}
 }
 
 func spaceRX() string { return "c 3 9 10 12 13 32 32" }
@@ -381,6 +383,13 @@ func (c *denCtx) blockD(items []*Item) (D, bool) {
 	flush := func() {
 		if len(pending) > 0 {
 			a := altD(pending)
+			if c.rawSingle && len(pending) == 1 {
+				a = pending[0]
+				if a.raw != "" {
+					a.txt = a.raw
+				}
+				a.raw = ""
+			}
 			if outSet {
 				out = catD(out, a)
 			} else {
@@ -402,7 +411,13 @@ func (c *denCtx) blockD(items []*Item) (D, bool) {
 			case "cmdline":
 				words := []D{}
 				c.cmdWords(it.Kids, it.CmdType, &words)
-				pending = append(pending, altD(words))
+				cd := altD(words)
+				wt := make([]string, len(words))
+				for i, w := range words {
+					wt[i] = w.txt
+				}
+				cd.raw = strings.Join(wt, "|") // the result of a cmdline block is not grouped
+				pending = append(pending, cd)
 			case "concat":
 				flush()
 			case "store":
@@ -437,6 +452,23 @@ func (c *denCtx) blockD(items []*Item) (D, bool) {
 				sub := c.withFileDefs(f)
 				if len(f.Prefixes) == 0 && len(f.Suffixes) == 0 {
 					walk(sub, f.Body) // typing the lines in place
+				} else if c.rawSingle {
+					// the parser emits such a file as a local block: prefix / ##!=> ... body ... ##!=> suffix / ##!=>
+					var syn []*Item
+					for _, p := range f.Prefixes {
+						syn = append(syn, &Item{Kind: "entry", Text: p}, &Item{Kind: "concat"})
+					}
+					syn = append(syn, f.Body...)
+					if len(f.Suffixes) > 0 {
+						syn = append(syn, &Item{Kind: "concat"})
+					}
+					for _, x := range f.Suffixes {
+						syn = append(syn, &Item{Kind: "entry", Text: x}, &Item{Kind: "concat"})
+					}
+					sub.rawSingle = true
+					if d, ok := sub.blockD(syn); ok {
+						pending = append(pending, d)
+					}
 				} else {
 					body, ok := sub.blockD(f.Body)
 					parts := []D{}
@@ -461,6 +493,21 @@ func (c *denCtx) blockD(items []*Item) (D, bool) {
 	if !outSet && len(pending) == 0 {
 		return epsD(), false
 	}
+	if c.rawSingle {
+		// Complete: the buffer is grouped as a whole, the remaining lines are always joined and grouped
+		if outSet {
+			out.txt = "(?:" + out.txt + ")"
+		}
+		if len(pending) > 0 {
+			a := altD(pending)
+			if outSet {
+				out = catD(out, a)
+			} else {
+				out, outSet = a, true
+			}
+		}
+		return out, true
+	}
 	flush()
 	return out, true
 }
@@ -476,7 +523,7 @@ func (c *denCtx) withFileDefs(f *IncFile) *denCtx {
 	for k, v := range own {
 		merged[k] = substDefs(v, own)
 	}
-	return &denCtx{p: c.p, fold: c.fold, dotNL: c.dotNL, defs: merged, stash: c.stash, depth: c.depth + 1}
+	return &denCtx{p: c.p, fold: c.fold, dotNL: c.dotNL, defs: merged, stash: c.stash, depth: c.depth + 1, rawSingle: c.rawSingle}
 }
 
 func (c *denCtx) cmdWords(items []*Item, cmdType string, words *[]D) {
@@ -499,6 +546,40 @@ func (c *denCtx) cmdWords(items []*Item, cmdType string, words *[]D) {
 			c.fail(errUnsupported) // nested block inside cmdline: outside the generated fragment
 		}
 	}
+}
+
+// PlainReadingRaw: NOT the plain reading but what the code's raw copy of single-line segments makes
+// of the program (text only), used to recognise the recorded finding C01-single-line-raw exactly:
+// prefixes and suffixes are pasted raw, the body is grouped, a segment of one pending line is copied raw
+func (p *Prog) PlainReadingRaw() (txt string, ok bool) {
+	defs := map[string]string{}
+	collectDefs(p.Body, defs)
+	c := &denCtx{p: p, fold: strings.Contains(p.Flags, "i"), dotNL: strings.Contains(p.Flags, "s"), defs: defs, stash: map[string]D{}, rawSingle: true}
+	body, present := c.blockD(p.Body)
+	var sb strings.Builder
+	for _, x := range p.Prefixes {
+		sb.WriteString(substDefs(x, defs))
+	}
+	if present {
+		sb.WriteString("(?:" + body.txt + ")")
+	}
+	for _, x := range p.Suffixes {
+		sb.WriteString(substDefs(x, defs))
+	}
+	if c.err != nil || sb.Len() == 0 {
+		return "", false
+	}
+	fl := ""
+	if c.fold {
+		fl += "i"
+	}
+	if c.dotNL {
+		fl += "s"
+	}
+	if fl != "" {
+		return "(?" + fl + ")" + sb.String(), true
+	}
+	return sb.String(), true
 }
 
 // PlainReading: the regular expression the file describes.  rx has the flags applied (every
